@@ -15,6 +15,8 @@
 //	name  <tag> record
 //	real  <kind> record expected-known expected-match
 //	reloc record record           second text = first with sentinel and pcs shifted
+//	uint  string status value     strconv.ParseUint(s, 0, 64) itself (the model's parse_uint0)
+//	sscan line status value       fmt.Sscanf(line, "sentinel %x", &u64) itself (the model's scan_sentinel)
 package main
 
 import (
@@ -577,6 +579,91 @@ func parsedReals() []tb {
 	return res
 }
 
+// ---------------------------------------------------------------- the two library parsers, directly
+
+var numAlphabet = []string{"0", "1", "7", "8", "9", "a", "f", "F", "g", "z", "x", "X", "b", "B", "o", "O", "_", "_", "+", "-", " ", "é"}
+
+func genNum() string {
+	switch rnd.Intn(4) {
+	case 0: // free mix
+		var sb strings.Builder
+		for k := rnd.Intn(10); k > 0; k-- {
+			sb.WriteString(Pick(rnd, numAlphabet))
+		}
+		return sb.String()
+	case 1: // around 2^64 in every base
+		v := Pick(rnd, []uint64{^uint64(0), ^uint64(0) - 1, 1 << 63, 0, 1, ^uint64(0) / 10, ^uint64(0)/16 + 1, rnd.Uint64()})
+		s := Pick(rnd, []string{fmt.Sprintf("%d", v), fmt.Sprintf("0x%x", v), fmt.Sprintf("0b%b", v), fmt.Sprintf("0o%o", v), fmt.Sprintf("0%o", v)})
+		if rnd.Chance(40) { // one more digit: out of range
+			s += Pick(rnd, []string{"0", "1", "7"})
+		}
+		if rnd.Chance(30) { // bump the last digit
+			b := []byte(s)
+			b[len(b)-1]++
+			s = string(b)
+		}
+		return s
+	default: // prefix, digits, underscores
+		pre := Pick(rnd, []string{"", "0x", "0X", "0b", "0B", "0o", "0O", "0", "0_", "0x_", "_", "+", "-0x"})
+		digs := Pick(rnd, []string{"01", "01234567", "0123456789", "0123456789abcdefABCDEF", "0123456789abcdefg"})
+		var sb strings.Builder
+		sb.WriteString(pre)
+		for k := rnd.Intn(12); k > 0; k-- {
+			sb.WriteByte(digs[rnd.Intn(len(digs))])
+			if rnd.Chance(20) {
+				sb.WriteByte('_')
+			}
+			if rnd.Chance(5) {
+				sb.WriteByte('_')
+			}
+		}
+		return sb.String()
+	}
+}
+
+func caseUint() {
+	s := genNum()
+	v, err := strconv.ParseUint(s, 0, 64)
+	st := "ok"
+	if err != nil {
+		st = "err"
+		v = 0
+	}
+	out.Note("uint-" + st)
+	out.Case(true, "uint", HS(s), st, U(v))
+}
+
+func caseSscan() {
+	sp := Pick(rnd, []string{" ", " ", "  ", " \t", " \r", "  ", "  ", " 　", "\t", "", "\u0085", " \xc2", " \v\f"})
+	var tail string
+	switch rnd.Intn(4) {
+	case 0:
+		tail = genNum()
+	case 1:
+		tail = fmt.Sprintf("%x", rnd.Uint64()>>uint(rnd.Intn(64))) + Pick(rnd, []string{"", " x", "g", "_1", "\t", "é"})
+	case 2:
+		tail = Pick(rnd, []string{"ffffffffffffffff", "10000000000000000", "0000000000000000000001", "FFFFFFFFFFFFFFFF0", "", "0", "00", "0x1", "x", "-1", "+1", "١"})
+	default:
+		tail = junk(2)
+	}
+	line := "sentinel" + sp + tail
+	var v uint64
+	st := "ok"
+	func() {
+		defer func() {
+			if recover() != nil {
+				st = "panic"
+			}
+		}()
+		if _, err := fmt.Sscanf(line, "sentinel %x", &v); err != nil {
+			st = "err"
+			v = 0
+		}
+	}()
+	out.Note("sscan-" + st)
+	out.Case(true, "sscan", HS(line), st, U(v))
+}
+
 func main() {
 	if k := os.Getenv("VH_CRASH_KIND"); k != "" {
 		childMain(k)
@@ -609,6 +696,10 @@ func main() {
 	for i := len(reals); i < n; i++ {
 		base := Pick(rnd, bases)
 		switch r := i % 20; {
+		case i%40 == 19:
+			caseUint()
+		case i%40 == 39:
+			caseSscan()
 		case r < 8: // projection-preserving rewrites of a real report
 			emit("rewrite", rewriteNonPC(base).String())
 		case r < 13: // outcome-changing mutations (sometimes rewritten as well)
